@@ -4,6 +4,7 @@ Tie/monitor: every dataset run() returns is checked against what semantic_analys
 against the data-model invariants (names, roles, types, nullability, column order; typed values;
 non-null unique identifiers; non-nullable never null; no identifiers -> at most one datapoint)."""
 import os
+import re
 import sys
 sys.path.insert(0, os.path.join(os.path.dirname(os.path.abspath(__file__)), '..'))
 import vlib
@@ -94,11 +95,33 @@ def corpus_stream(ck, q):
         shutil.rmtree(out, ignore_errors=True)
 
 
+
+def stmt_op(expr):
+    """the dataset-level operator of a three-address statement `T_k := <expr>;` (for finding keys)"""
+    e = expr.strip()
+    while e.startswith('(') and e.endswith(')'):
+        e = e[1:-1].strip()
+    m = re.match(r'^(\w+)\s*\(', e)
+    if m and m.group(1) not in ('if',):
+        return m.group(1)
+    if e.startswith('if '):
+        return 'if'
+    if e.startswith('case '):
+        return 'case'
+    m = re.search(r'\[\s*(\w+)', e)
+    if m and re.match(r'^\w+\s*\[', e):
+        return m.group(1)
+    if e.startswith('-') or e.startswith('+') or e.startswith('not '):
+        return 'unary' + e[0] if e[0] in '+-' else 'not'
+    m = re.search(r'\s(\|\||<=|>=|<>|=|<|>|\+|-|\*|/|and|or|xor|in|not_in)\s', e)
+    return m.group(1) if m else '?'
+
+
 def main(ck):
     pr = ck.proof('C10', extra_modules=('VtlModel.Props.C10Types',))
     q = ck.quick()
-    g = G.Gen(ck.rng)
-    gflat = G.Gen(ck.rng, flat=True)
+    g = G.Gen(ck.rng, nonnull_decl=True)
+    gflat = G.Gen(ck.rng, flat=True, nonnull_decl=True)
     cases = [g.case(depth=ck.rng.choice([1, 1, 2, 3])) for _ in range(100 if q else 2500)] + [gflat.case() for _ in range(100 if q else 2500)]
     jobs = []
     for c in cases:
@@ -132,12 +155,15 @@ def main(ck):
             ck.violation('result-names-differ', {'script': c['vtl'], 'semantic': sorted(sem[1]), 'run': sorted(run[1])},
                          'semantic_analysis and run(return_only_persistent=False) name different results: %s' % c['vtl'][:140])
             continue
-        for n in run[1]:
+        stmts = {m.group(1): m.group(2) for m in re.finditer(r'(\w+)\s*(?::=|<-)\s*([^;]*);', c['vtl'])}
+        order = [m.group(1) for m in re.finditer(r'(\w+)\s*(?::=|<-)', c['vtl'])]
+        for n in sorted(run[1], key=lambda x: order.index(x) if x in order else 99):     # the first statement that goes wrong
             why = conforms(n, sem[1][n], run[1][n])
             if why:
                 ops = c.get('ops', [])
                 shape = 'nested' if (not c.get('flat') and c.get('depth', 0) >= 2) else 'flat'
-                key = 'nonconforming-result:%s:%s:%s' % (shape, why.split(' ')[0].rstrip(':'), ops[-1] if ops else '?')
+                culprit = stmt_op(stmts.get(n, '')) if shape == 'flat' else (ops[-1] if ops else '?')
+                key = 'nonconforming-result:%s:%s:%s' % (shape, why.split(' ')[0].rstrip(':'), culprit)
                 if shape == 'nested' and (why.startswith('data columns') or why.startswith('components')):
                     key = 'nested-expression:result-columns-differ-from-components'
                 ck.violation(key,
